@@ -492,6 +492,47 @@ def v_try(run):
     run_skeleton(build, check)
 
 
+def prove_between(label, got, lo, hi, clause, path, facts=()):
+    """lo <= got <= hi: the lower bound is what the property's domain requires to be reported (C02), the upper bound what Python's semantics
+    allows to be reported (C03)"""
+    hyp = z3.And(*facts) if facts else z3.BoolVal(True)
+    prove(label + '-superset[C02]', z3.Implies(hyp, z3.IsSubset(lo, got)), clause=clause + '  (every reaching definition is reported)', path=path)
+    prove(label + '-subset[C03]', z3.Implies(hyp, z3.IsSubset(got, hi)), clause=clause + '  (no phantom definition; exact unbound component)', path=path)
+
+
+@harness(['C02', 'C03', 'C01', 'C13'], 'supp.nast.extract_visitor.visit_Try[body of several statements]')
+def v_try_statements(run):
+    """try: B1; B2 except: H   -  an exception raised by the LAST statement of the body leaves it with what the statements before it bound:
+    the handler starts from at least  V | T_B1(V)  (the property's domain: first or last statement) and from at most
+    V | T_B1(V) | T_B2(T_B1 V)  (Python lets every statement raise);  B2 starts from T_B1(V);  exit = T_B2(T_B1 V) | T_H(handler entry)"""
+    def build():
+        sk = Skeleton()
+        b1, b2, h = sk.child('stmts', 'body1'), sk.child('stmts', 'body2'), sk.child('stmts', 'handler')
+        kw, k1 = Pos('try'), Pos('except')
+        sk.order(kw, b1.start)
+        sk.facts += [le(b1.end.t, b2.start.t), le(b2.end.t, k1.t), lt(k1.t, h.start.t)]
+        H = k1.put(ast.ExceptHandler(type=None, name=None, body=[h.node()]))
+        sk.node = kw.put(ast.Try(body=[b1.node(), b2.node()], handlers=[H], orelse=[], finalbody=[]))
+        sk.b1, sk.b2, sk.h = b1, b2, h
+        return sk
+
+    def check(sk, g, v, path):
+        fs = all_facts(sk)
+        lo = ID.join(sk.b1.tr)
+        hi = lo.join(sk.b1.tr.then(sk.b2.tr))
+        check_entries(sk, g, path, [(sk.b1, ID), (sk.b2, sk.b1.tr)], fs)
+        c = sk.h
+        if not c.visits:
+            prove('entry-of-handler-visited[C01]', False, path=path)
+            return
+        prove_between('entry-of-handler', entry_view(g, c), lo(g.V0), hi(g.V0),
+                      'the handler starts from what an exception at the first or at the last statement of the body leaves', path, fs)
+        done = sk.b1.tr.then(sk.b2.tr)
+        prove_between('exit', g.view_end(v.flow), done.join(lo.then(sk.h.tr))(g.V0), done.join(hi.then(sk.h.tr))(g.V0),
+                      'the table after the construct', path, fs)
+    run_skeleton(build, check)
+
+
 # ---------------------------------------------------------------------------
 # simple statements and expressions that bind
 
